@@ -99,10 +99,13 @@ def build_runner(case, log, workdir=None):
             log.append(["test", v, int(current_rep), sk])
             kg = plans[v - 1]["kg"]
             if kg[0] == "always":
-                return True
-            if kg[0] == "stopAt":
-                return current_rep < kg[1]
-            return sk == 0
+                ans = True
+            elif kg[0] == "stopAt":
+                ans = current_rep < kg[1]
+            else:
+                ans = sk == 0
+            # a user predicate may answer with any truthy / falsy value
+            return (bool(ans), np.bool_(ans), int(ans))[v % 3]
 
         def _on_simulate_current_params_start(self, current_params):
             self.attempt[var_of(current_params)] = 0
